@@ -14,7 +14,8 @@
 (* the dedup are applied to what arrived (functional form of Rules.tla;    *)
 (* the step-wise form is RulesMC).                                         *)
 (*                                                                         *)
-(* Scope: NClients servers, each with one group of <= 2 rules drawn from   *)
+(* Scope: NClients servers, each with one group of <= MaxPerClient rules   *)
+(* (0 = a reduced choice of single rules) drawn from                       *)
 (* names {n,m} x label a in {absent,"1"} x replica label r = server index; *)
 (* fail mode per server; strategy; one of a few filter combinations.       *)
 (***************************************************************************)
@@ -26,7 +27,8 @@ RuleOf(c, nm, a, k) ==
     [file |-> "f", group |-> "g", type |-> "alert", name |-> nm, query |-> "q", dur |-> 0,
      labels |-> (IF a = "" THEN <<>> ELSE <<[n |-> "a", v |-> a, t |-> FALSE]>>) \o <<[n |-> "r", v |-> ToString(c), t |-> FALSE]>>,
      st |-> IF c = 1 THEN 1 ELSE 3, ev |-> 10 * c + k, src |-> c, sent |-> TRUE]
-RuleChoices(c) == { <<>> } \cup { <<RuleOf(c, nm, a, 1)>> : nm \in {"n", "m"}, a \in {"", "1"} }
+RuleChoices(c) == IF MaxPerClient = 0 THEN { <<>>, <<RuleOf(c, "n", "", 1)>>, <<RuleOf(c, "m", "1", 1)>>, <<RuleOf(c, "n", "1", 1)>> } ELSE
+                  { <<>> } \cup { <<RuleOf(c, nm, a, 1)>> : nm \in {"n", "m"}, a \in {"", "1"} }
                   \cup (IF MaxPerClient < 2 THEN {} ELSE { <<RuleOf(c, "n", a, 1), RuleOf(c, "m", b, 2)>> : a \in {"", "1"}, b \in {"", "1"} })
 Filters == { [sets |-> <<>>, names |-> <<>>, groups |-> <<>>, files |-> <<>>],
              [sets |-> <<>>, names |-> <<"n">>, groups |-> <<>>, files |-> <<>>],
